@@ -6,7 +6,7 @@ import importlib.util
 import os
 import sys
 
-from .shims import BUILTIN_MAP, FUNCS, HELPERS, SymCtypes, SymStruct  # noqa: F401
+from .shims import BUILTIN_MAP, FUNCS, HELPERS, SymAst, SymCtypes, SymStruct  # noqa: F401
 
 
 class Rewriter(ast.NodeTransformer):
@@ -153,6 +153,8 @@ class Loader(importlib.abc.Loader):
             module.__dict__["struct"] = SymStruct
         if module.__dict__.get("ctypes") is ctypes:
             module.__dict__["ctypes"] = SymCtypes
+        if module.__dict__.get("ast") is ast:
+            module.__dict__["ast"] = SymAst()
         LOADED[self.fullname] = self.path
 
 
